@@ -575,10 +575,18 @@ fn enabled_c08(w: &RouterWorld, cfg: &Cfg, v: &mut Vec<(Act, u8)>) {
         if cfg.variant == 1 {
             v.push((Act::Pub { c: p, t: 0, qos: 1, retain: true, empty: false, props: 0 }, 0));
         }
+        if cfg.variant == 3 && w.model.accepted.len() < 300 {
+            // more than a window full: the session ends with unacknowledged messages and
+            // a backlog that was never forwarded
+            v.push((Act::Burst { c: p, t: 0, qos: 1, n: 120 }, 0));
+            v.push((Act::Pub { c: p, t: 0, qos: 0, retain: false, empty: false, props: 0 }, 0));
+            v.push((Act::Pub { c: p, t: 0, qos: 2, retain: false, empty: false, props: 0 }, 0));
+        }
     }
+    rel_actions(w, &[p], v);
     if live(w, s) {
         let qs: &[u8] = match cfg.variant {
-            0 => &[1, 2],
+            0 | 3 => &[1, 2],
             1 => &[1],
             _ => &[0, 1],
         };
@@ -602,6 +610,10 @@ fn enabled_c08(w: &RouterWorld, cfg: &Cfg, v: &mut Vec<(Act, u8)>) {
             // takeover by a second connection under the same id
             if w.outbox.is_empty() {
                 v.push((Act::Connect { c: s, clean: false, will: 0 }, 0));
+                if cfg.variant == 3 {
+                    // ... or by a connection that asks for a clean session
+                    v.push((Act::Connect { c: s, clean: true, will: 0 }, 0));
+                }
             }
         }
     } else if can_connect(w, s) {
@@ -780,6 +792,10 @@ fn enabled_c16(w: &RouterWorld, cfg: &Cfg, v: &mut Vec<(Act, u8)>) {
                 v.push((Act::Bad { c, kind: 0 }, 0));
                 v.push((Act::Bad { c, kind: 16 }, 0));
                 v.push((Act::DropLate { c }, 0));
+                // DISCONNECT sharing a batch with other packets
+                for kind in [3u8, 7, 8] {
+                    v.push((Act::Batch { c, kind }, 0));
+                }
             }
         } else if can_connect(w, c) && !w.ended.iter().any(|e| e.ci == c as usize) {
             if c == 0 {
@@ -1000,8 +1016,15 @@ fn enabled_c01(w: &RouterWorld, cfg: &Cfg, v: &mut Vec<(Act, u8)>) {
         1 => (&[1, 2], &[1, 2]),
         // tiny segments (retention proviso): subscribers may stall and fall behind
         3 => (&[0, 1], &[0]),
+        // bursts larger than the outgoing batch and the inflight window
+        4 => (&[0, 1], &[1]),
         _ => (&[0, 2], &[0, 1, 2]),
     };
+    if cfg.variant == 4 && live(w, 0) && w.model.accepted.len() < 400 {
+        for n in [12u16, 130] {
+            v.push((Act::Burst { c: 0, t: 0, qos: 1, n }, 0));
+        }
+    }
     if cfg.variant == 3 {
         for c in [2u8, 3u8] {
             if let Some(l) = w.clients[c as usize].link.as_ref() {
@@ -1041,7 +1064,7 @@ fn enabled_c01(w: &RouterWorld, cfg: &Cfg, v: &mut Vec<(Act, u8)>) {
                     // publish on the own subscription and unsubscribe, one batch
                     v.push((Act::Batch { c, kind: 5 }, 0));
                 }
-            } else if active_subs(w, c) < 2 {
+            } else if active_subs(w, c) < if cfg.variant == 4 { 3 } else { 2 } {
                 for &q in sub_qos {
                     v.push((Act::Sub { c, f, qos: q }, 0));
                 }
